@@ -1086,6 +1086,9 @@ def _fresh_record_per_iteration(ctx):
                 ct = (r.get("ct") or r.get("t") or "").replace("const ", "").strip()
                 dd = inner_decls.get(r["d"])
                 cty = ((dd or {}).get("ct") or ct)
+                if cty not in SCALAR:
+                    from .common import resolve_typedef
+                    cty = resolve_typedef(db, cty)
                 if not via_ptr and cty in SCALAR:
                     continue      # a scalar is overwritten as a whole
                 n += 1
